@@ -297,6 +297,17 @@ func readCursor(path string) int {
 	return v
 }
 
+func readNote(path string) string {
+	b, err := os.ReadFile(path)
+	if err != nil {
+		return ""
+	}
+	if i := bytes.IndexByte(b, 0); i >= 0 {
+		b = b[:i]
+	}
+	return string(b)
+}
+
 func tailFile(path string, n int) string {
 	b, err := os.ReadFile(path)
 	if err != nil {
@@ -457,8 +468,9 @@ func runShard(b *builder, m *merged, id, tier string, sd int64, lp lanePlan, sh 
 		}
 		// the child died (or bailed out) while running case cur
 		if exit != 3 { // exit 3 = the child recorded the violation itself and asked to be resumed
+			note := readNote(curPath + ".note")
 			v := violation{Property: id, Lane: lp.Lane, Tier: tier, Seed: sd, Case: cur, Kind: "process-death",
-				Detail: fmt.Sprintf("child exit %d while running case %d: %s", exit, cur, deathSummary(log)),
+				Detail: fmt.Sprintf("child exit %d while running case %d: %s\n  in flight: %s", exit, cur, deathSummary(log), note),
 				Extra:  map[string]any{"shard": sh, "nshards": lp.Shards, "cases": lp.Cases}}
 			m.mu.Lock()
 			m.violations = append(m.violations, v)
